@@ -5,7 +5,8 @@
    source of both as an explicit Panic outcome.  The theorems quantify over every state
    satisfying the invariant Inv (Proofs/BeginBlockProofs.v), every chain of blocks with
    non-decreasing block time and arbitrary heights, and every sequence of operations in
-   every block: file posts, prover slots added / proven / dropped, deletions, gauges opened
+   every block: file posts, prover keys listed (only keys not yet listed, as PostProof does) / proven /
+   dropped, deletions, gauges opened
    (end at least a microsecond after the block time, or not after it), topped up in the same block or donated to by anyone,
    governance changes of CheckWindow / ProofWindow accepted by the parameter validators.
    Operation validity only says what ValidateBasic, the bank and time.AddDate guarantee:
@@ -56,7 +57,7 @@ Print Assumptions C05_genesis_satisfies_invariant.
 Definition DAY : Z := 86400 * 1000000000.
 Definition ex_chain : list block :=
   [ {| bl_height := 2; bl_time := 1700000000000000000 + 6000000000;
-       bl_ops := [OpPostFile 3000; OpAddSlot 0 true;
+       bl_ops := [OpPostFile 3000; OpAddSlot 0 7%N true;
                   OpNewGauge (1700000000000000000 + 6000000000 + 30 * DAY) 1000000 true;
                   OpTopUpGauge 0 500; OpDonate 0 0 77] |};
     {| bl_height := 100; bl_time := 1700000000000000000 + 600000000000; bl_ops := [OpProve 0 0; OpSetWindows 2 5] |};
@@ -74,6 +75,7 @@ Proof.
   split; [lia|]. intros s1 a1 E1. vm_compute in E1. injection E1 as <- <-.
   split.
   { cbn. unfold DAY. repeat split; try lia; try reflexivity; try (rewrite B62_val; lia).
+    - intros f [=]; subst f. cbn. intros [].
     - intros g [=]; subst g. cbn. repeat constructor; rewrite B62_val; lia.
     - intros g c [=]; subst g. cbn. intros [=]; subst c. cbn. rewrite B62_val. lia. }
   cbn [fold_left]. split; [cbn; lia|]. intros s2 a2 E2. vm_compute in E2. injection E2 as <- <-.
@@ -88,7 +90,13 @@ Qed.
    what the correspondence check replays against real Go panics *)
 Example C05_zero_interval_panics :
   reward_block 100 0 {| ss_check_window := 100;
-    ss_files := [{| bf_size := 5; bf_interval := 0; bf_start := 100; bf_slots := [{| sl_found := true; sl_last := 100 |}] |}];
+    ss_files := [{| bf_size := 5; bf_interval := 0; bf_start := 100; bf_slots := [{| sl_key := 1%N; sl_found := true; sl_last := 100 |}] |}];
+    ss_gauges := [] |} = Panic.
+Proof. vm_compute. reflexivity. Qed.
+Example C05_key_listed_twice_panics :       (* slice bounds out of range in RemoveProverWithKey *)
+  reward_block 200 0 {| ss_check_window := 100;
+    ss_files := [{| bf_size := 5; bf_interval := 50; bf_start := 3;
+                    bf_slots := [{| sl_key := 1%N; sl_found := false; sl_last := 0 |}; {| sl_key := 1%N; sl_found := false; sl_last := 0 |}] |}];
     ss_gauges := [] |} = Panic.
 Proof. vm_compute. reflexivity. Qed.
 Example C05_sub_microsecond_gauge_panics :
